@@ -253,6 +253,14 @@ func vtokCase(o *vout, prop, id string, in []byte, normalize bool) {
 		n = "1"
 	}
 	o.corr("tok", id, []string{n, hx(in)}, res)
+	if normalize && len(in) < 200000 {
+		// stage `norm` (S7): Normalize on a fresh classifier
+		var nres string
+		if p, _ := catch(func() { nres = hx(NewClassifier(0.8).Normalize(in)) }); p {
+			nres = "PANIC"
+		}
+		o.corr("norm", "N"+id, []string{hx(in)}, nres)
+	}
 	if doc == nil {
 		return
 	}
